@@ -74,8 +74,10 @@ func getCacheMaxAge(header http.Header) int {
 
 	// 如果有设置了 age 字段，则最大缓存时长减少
 	if age := header.Get(headerAge); age != "" {
-		v, _ := strconv.Atoi(age)
-		maxAge -= v
+		// age只会减少缓存时长，非正数（非法值）忽略
+		if v, _ := strconv.Atoi(age); v > 0 {
+			maxAge -= v
+		}
 	}
 
 	return maxAge
